@@ -5,4 +5,5 @@ export GOFLAGS=-mod=mod GOPROXY=off GOSUMDB=off GOTOOLCHAIN=local
 python3 tools/vbuild.py plain.test >/dev/null || exit 1
 python3 tools/vbuild.py sched.test >/dev/null || exit 1
 python3 tools/vbuild.py sched-race.test >/dev/null || exit 1
+python3 tools/vbuild.py main.test >/dev/null || exit 1
 echo "setup ok"
